@@ -616,7 +616,10 @@ func checkC06(c *ctx) {
 	if !boundaryMerges(c, parts, "C06", 0) {
 		return
 	}
-	wideMerges(c, parts, "C06")
+	if !wideMerges(c, parts, "C06") {
+		return
+	}
+	emptyInputMerges(c, parts, "C06")
 }
 
 // boundaryMerges: cardinalities cross a multiple of 1024 between inputs and output.
@@ -735,6 +738,57 @@ func wideMerges(c *ctx, parts []int, prop string) bool {
 				return false
 			}
 		}
+	}
+	return true
+}
+
+// emptyInputMerges: an input without documents (what a merge in which nothing survived leaves) that
+// still lists a field the other inputs lack - a name sorting before or after theirs - merged, in
+// every position, with two inputs of identical field lists whose tokens carry locations.
+func emptyInputMerges(c *ctx, parts []int, prop string) bool {
+	mkDoc := func(id string, fields ...string) zh.Doc {
+		d := zh.Doc{Fields: []zh.Field{zh.IDField(id)}}
+		for i, f := range fields {
+			d.Fields = append(d.Fields, zh.Field{Name: f, Len: 2, Toks: []zh.Tok{
+				{Term: "w" + f, Freq: 1, Locs: []zh.Loc{{Pos: uint64(1 + i), Start: 0, End: 2}}},
+				{Term: "all", Freq: 2, Locs: []zh.Loc{{Pos: 3, Start: 3, End: 5}, {Pos: 4, Start: 6, End: 8}}}}})
+		}
+		return d
+	}
+	for _, extra := range []string{"Aaa", "aaa", "zzz"} {
+		src, err := newBuilt(c, zh.Batch{mkDoc("e0", extra, "body", "tag")}, 1026, false)
+		must(err)
+		mcE := &mergeCase{ins: []*segEnt{src}, drops: [][]uint64{{0}}, nilBM: []bool{false}, mode: 1026}
+		specE, _ := specMerge(c, mcE)
+		rE := runMerge(c, mcE)
+		if rE.err != nil || rE.seg == nil {
+			c.Violation(fmt.Sprintf("%s merge in which nothing survives failed: %v", prop, rE.err), false)
+			return false
+		}
+		empty := &segEnt{seg: rE.seg, spec: specE, n: 0, prov: "merged", depth: 1}
+		a, err := newBuilt(c, zh.Batch{mkDoc("a0", "body", "tag"), mkDoc("a1", "body", "tag")}, 1026, true)
+		must(err)
+		b, err := newBuilt(c, zh.Batch{mkDoc("b0", "body", "tag")}, 1026, false)
+		must(err)
+		for pos := 0; pos < 3; pos++ {
+			ins := []*segEnt{a, b}
+			ins = append(ins[:pos], append([]*segEnt{empty}, ins[pos:]...)...)
+			mc := &mergeCase{ins: ins, drops: [][]uint64{nil, nil, nil}, nilBM: []bool{true, true, true}, mode: 1026}
+			c.Case(fmt.Sprintf("empty-input-%s-%d", extra, pos), true)
+			c.Count("merges_with_an_empty_input_listing_an_extra_field")
+			bad, r, _ := mergeVerdict(c, mc, parts, false)
+			if r != nil && r.seg != nil {
+				r.seg.Close()
+			}
+			if bad != "" {
+				c.Violation(fmt.Sprintf("%s merge of two segments with identical field lists (tokens with locations) and, at position %d, an input without documents that lists the additional field %q\n%s", prop, pos, extra, clip(bad)), false)
+				return false
+			}
+		}
+		rE.seg.Close()
+		src.close()
+		a.close()
+		b.close()
 	}
 	return true
 }
